@@ -75,7 +75,7 @@ def _ops():
     for a in ("n", "n.tar.gz", "é f", "%2F"):
         add("with_name(%r)" % a, lambda u, a=a: u.with_name(a))
     add("with_name('k', keep)", lambda u: u.with_name("k", keep_query=True, keep_fragment=True))
-    for a in ("", ".x", ".é z"):
+    for a in ("", ".x", ".é z", ".tar.gz", ".a."):
         add("with_suffix(%r)" % a, lambda u, a=a: u.with_suffix(a))
     for a in ("c", "c d/e", "..", "", "%2F", "."):
         add("/ %r" % a, lambda u, a=a: u / a)
@@ -128,6 +128,10 @@ def replay(seed, opnames):
     u = impl.URL(seed)
     out = [u]
     for n in opnames:
+        if n == "<observe all>":
+            from .observe import observe
+            observe(u)
+            continue
         u = table[n](u)
         out.append(u)
     return out
@@ -158,12 +162,31 @@ def task_expand(modname, chunk):
     edge_post = getattr(mod, "edge_post", None)
     edge_exc = getattr(mod, "edge_exception", None)
     new = {}
+    warm = getattr(mod, "WARM_PARENTS", False)
     for st, trace in chunk:
         try:
             u = from_state(st)
         except Exception:  # noqa: BLE001
             acc.count("state_not_reconstructible")
             continue
+        if warm:
+            # the same transitions again from a parent whose every cached accessor has been read (derived objects may
+            # inherit pre-computed values from it); the produced objects are judged, no new states arise from this pass
+            from .observe import observe
+            try:
+                w = from_state(st)
+                observe(w)
+                for name, fn in table:
+                    acc.transitions += 1
+                    try:
+                        r = fn(w)
+                    except Exception:  # noqa: BLE001
+                        continue
+                    if type(r) is impl.URL and r is not w:
+                        acc.evals += 1
+                        mod.state_invariant(acc, r, (trace[0], trace[1] + ["<observe all>", name]))
+            except Exception:  # noqa: BLE001
+                acc.count("warm_pass_failed")
         for oi, (name, fn) in enumerate(table):
             acc.transitions += 1
             try:
